@@ -106,34 +106,72 @@ Lemma dig_scan_not_bad i first flen : forall ls saved pos, ls <> [] -> dig_scan 
 Proof.
   induction ls as [|l ls IH]; intros saved pos Hne; [contradiction|].
   cbn [dig_scan]. destruct (ps_dig_is_first l first).
-  - destruct (Z.ltb _ 0); discriminate.
+  - destruct (ps_dig_short _ _); [discriminate|]. destruct (Z.ltb _ 0); discriminate.
   - destruct ls as [|l2 ls2].
     + cbn [sprepend]. discriminate.
     + specialize (IH l (pos + zlen l) ltac:(discriminate)).
       destruct (dig_scan i first flen true l (pos + zlen l) (l2 :: ls2)); cbn [sprepend]; try discriminate. contradiction.
 Qed.
+Lemma dig_scan_malf i first flen ok : forall ls saved pos, dig_scan i first flen ok saved pos ls = SMalf -> begin_too_early i first saved ls.
+Proof.
+  induction ls as [|l ls IH]; intros saved pos E; [discriminate|].
+  cbn [dig_scan] in E. unfold ps_dig_is_first in E. destruct (bytes_eqb l first) eqn:El.
+  - apply bytes_eqb_eq in El. subst l. exists [], ls. split; [reflexivity|]. split; [constructor|]. cbn [List.last].
+    destruct (ps_dig_short i (zlen saved)) eqn:Es.
+    + unfold ps_dig_short in Es. destruct i; cbn [andb] in Es; lia.
+    + destruct (Z.ltb _ 0); discriminate.
+  - apply bytes_eqb_neq in El. destruct ls as [|l2 ls2].
+    + destruct ok; cbn [sprepend] in E; discriminate.
+    + destruct (dig_scan i first flen ok l (pos + zlen l) (l2 :: ls2)) eqn:E2; cbn [sprepend] in E; try discriminate.
+      destruct (IH _ _ E2) as [Ls [rest [E3 [Hn Hs]]]]. exists (l :: Ls), rest. split; [rewrite E3; reflexivity|].
+      split; [constructor; assumption|]. rewrite ProofsPS.last_cons. exact Hs.
+Qed.
+Lemma dig_scan_no_panic i first flen ok : forall ls saved pos, dig_scan i first flen ok saved pos ls <> SPanic.
+Proof.
+  induction ls as [|l ls IH]; intros saved pos; [discriminate|].
+  cbn [dig_scan]. destruct (ps_dig_is_first l first).
+  - destruct (ps_dig_short i (zlen saved)) eqn:Es; [discriminate|].
+    replace ((if i then ps_dig_keep16 (zlen saved) else ps_dig_keep8 (zlen saved)) <? 0) with false; [discriminate|].
+    unfold ps_dig_short, ps_dig_keep16, ps_dig_keep8 in *. destruct i; cbn [andb] in Es; lia.
+  - destruct ls as [|l2 ls2].
+    + destruct ok; cbn [sprepend]; discriminate.
+    + specialize (IH l (pos + zlen l)). destruct (dig_scan i first flen ok l (pos + zlen l) (l2 :: ls2)); cbn [sprepend]; try discriminate. contradiction.
+Qed.
 
-(* hashin refuses (Err) exactly for an unknown style, or in UTF-16 mode on a line feed byte followed by a non-zero byte *)
+(* hashin refuses (Err) exactly for an unknown style, in UTF-16 mode on a line feed byte followed by a non-zero byte, or when the begin line of a
+   signature block comes first in the file / after a line too short to hold the line break that the signer would strip *)
 Theorem ps_refuses_clean style f e : ps_hashin style f = Err e ->
   (spec_style style = None /\ e = E_STYLE) \/
-  (e = E_UTF16 /\ spec_bom16 f = true /\ exists pre z r, f = pre ++ 10 :: z :: r /\ z <> 0).
+  (e = E_UTF16 /\ spec_bom16 f = true /\ exists pre z r, f = pre ++ 10 :: z :: r /\ z <> 0) \/
+  (e = E_MALFORMED /\ exists st en, spec_style style = Some (st, en) /\
+     begin_too_early (spec_bom16 f) (ps_marker (spec_bom16 f) (ps_first_of st en)) [] (fst (ps_lines (spec_bom16 f) f))).
 Proof.
   unfold ps_hashin, ps_digest. rewrite spec_style_eq. change (spec_bom16 f) with (ps_is16 f).
   destruct (style_lookup style) as [[st en]|]; [|cbn [bind]; intros E; inversion E; left; auto].
-  pose proof (ps_lines_shape (ps_is16 f) f) as Hs. destruct (ps_lines (ps_is16 f) f) as [ls ok].
+  pose proof (ps_lines_shape (ps_is16 f) f) as Hs. destruct (ps_lines (ps_is16 f) f) as [ls ok]. cbn [fst].
   destruct ok.
   - pose proof (dig_scan_not_bad (ps_is16 f) (ps_marker (ps_is16 f) (ps_first_of st en)) (zlen f) ls [] 0
                   (lshape_true_nonempty _ _ _ _ Hs eq_refl)) as Hn.
-    destruct (dig_scan (ps_is16 f) (ps_marker (ps_is16 f) (ps_first_of st en)) (zlen f) true [] 0 ls); cbn [bind]; intros E; try discriminate.
-    contradiction.
-  - destruct (lshape_false_form _ _ _ _ Hs eq_refl) as [Hi Hex]. intros E. right.
-    destruct (dig_scan (ps_is16 f) (ps_marker (ps_is16 f) (ps_first_of st en)) (zlen f) false [] 0 ls); cbn [bind] in E; inversion E.
-    auto.
+    destruct (dig_scan (ps_is16 f) (ps_marker (ps_is16 f) (ps_first_of st en)) (zlen f) true [] 0 ls) eqn:Ed; cbn [bind]; intros E; try discriminate.
+    + contradiction.
+    + inversion E. right. right. split; [reflexivity|]. exists st, en. split; [reflexivity|]. eapply dig_scan_malf; exact Ed.
+  - destruct (lshape_false_form _ _ _ _ Hs eq_refl) as [Hi Hex]. intros E.
+    destruct (dig_scan (ps_is16 f) (ps_marker (ps_is16 f) (ps_first_of st en)) (zlen f) false [] 0 ls) eqn:Ed; cbn [bind] in E; inversion E.
+    + right. left. auto.
+    + right. right. split; [reflexivity|]. exists st, en. split; [reflexivity|]. eapply dig_scan_malf; exact Ed.
+Qed.
+(* the model never panics in DigestPowershell (after relic commit 4f70e5f) *)
+Theorem ps_hashin_no_panic style f p : ps_hashin style f <> Panic p.
+Proof.
+  unfold ps_hashin, ps_digest. destruct (style_lookup style) as [[st en]|]; [|discriminate].
+  destruct (ps_lines (ps_is16 f) f) as [ls ok].
+  pose proof (dig_scan_no_panic (ps_is16 f) (ps_marker (ps_is16 f) (ps_first_of st en)) (zlen f) ok ls [] 0) as Hn.
+  destruct (dig_scan _ _ _ _ _ _ _); cbn [bind]; try discriminate. contradiction.
 Qed.
 (* the 8-bit reading never refuses a known style *)
-Theorem ps_8bit_never_err style f e : spec_style style <> None -> spec_bom16 f = false -> ps_hashin style f <> Err e.
+Theorem ps_8bit_never_err style f e : spec_style style <> None -> spec_bom16 f = false -> e <> E_MALFORMED -> ps_hashin style f <> Err e.
 Proof.
-  intros Hs Hb E. destruct (ps_refuses_clean _ _ _ E) as [[E1 _]|[_ [E1 _]]]; congruence.
+  intros Hs Hb Hm E. destruct (ps_refuses_clean _ _ _ E) as [[E1 _]|[[_ [E1 _]]|[E1 _]]]; congruence.
 Qed.
 
 (* embed adds one more refusal: the patch offset lies beyond the end of the file, only for a UTF-16 file ending in a lone line feed byte *)
@@ -145,10 +183,10 @@ Proof.
   induction ls as [|l ls IH]; intros saved pos fd pre tsz ssz E; [discriminate|].
   cbn [dig_scan] in E. cbn [concat]. rewrite zlen_app. pose proof (zlen_nonneg l). pose proof (zlen_nonneg (concat ls)).
   destruct (ps_dig_is_first l first).
-  - destruct (Z.ltb _ 0); [discriminate|]. inversion E. pose proof (ztake_len_le (if i then ps_dig_keep16 (zlen saved) else ps_dig_keep8 (zlen saved)) saved). lia.
+  - destruct (ps_dig_short _ _); [discriminate|]. destruct (Z.ltb _ 0); [discriminate|]. inversion E. pose proof (ztake_len_le (if i then ps_dig_keep16 (zlen saved) else ps_dig_keep8 (zlen saved)) saved). lia.
   - destruct ls as [|l2 ls2].
     + destruct ok; cbn [sprepend] in E; [|discriminate]. inversion E. cbn [concat]. rewrite zlen_nil. lia.
-    + destruct (dig_scan i first flen ok l (pos + zlen l) (l2 :: ls2)) as [| |fd' pre' tsz' ssz'] eqn:E2; cbn [sprepend] in E; try discriminate.
+    + destruct (dig_scan i first flen ok l (pos + zlen l) (l2 :: ls2)) as [| | |fd' pre' tsz' ssz'] eqn:E2; cbn [sprepend] in E; try discriminate.
       inversion E. specialize (IH _ _ _ _ _ _ E2). lia.
 Qed.
 Lemma lshape_len i f ls ok : lshape i f ls ok -> zlen (concat ls) <= zlen f \/ (i = true /\ exists body, f = body ++ [10]).
@@ -171,7 +209,7 @@ Proof.
   destruct (zlen f <? d_tsz d) eqn:Elt; [|discriminate]. inversion E. right. split; [reflexivity|].
   unfold ps_digest in Ed. rewrite Es in Ed.
   pose proof (ps_lines_shape (ps_is16 f) f) as Hs. destruct (ps_lines (ps_is16 f) f) as [ls ok].
-  destruct (dig_scan (ps_is16 f) (ps_marker (ps_is16 f) (ps_first_of st en)) (zlen f) ok [] 0 ls) as [| |fd pre tsz ssz] eqn:E2; try discriminate.
+  destruct (dig_scan (ps_is16 f) (ps_marker (ps_is16 f) (ps_first_of st en)) (zlen f) ok [] 0 ls) as [| | |fd pre tsz ssz] eqn:E2; try discriminate.
   inversion Ed. subst d. cbn [d_tsz] in Elt.
   pose proof (dig_scan_tsz _ _ _ _ _ _ _ _ _ _ _ E2) as Ht. rewrite zlen_nil in Ht.
   destruct (lshape_len _ _ _ _ Hs) as [Hl|[Hi Hex]]; [lia|]. split; assumption.
@@ -509,9 +547,10 @@ Theorem ps_protect_separator_refuted : let g2 := [97; 88; 10] ++ w_block1 in
   /\ ps_payload 1 g2 = Ok g2 /\ ps_payload 1 w_signed = Ok [97].
 Proof. vm_compute. repeat split; reflexivity. Qed.
 
-(* W5 (C01) the begin marker as first line, or after a line shorter than the two bytes the signer strips: index out of range *)
-Theorem ps_refuses_clean_refuted :
-  ps_hashin 1 w_block1 = Panic 1 /\ ps_embed 1 w_block1 [1] = Panic 1 /\ ps_hashin 1 (10 :: w_block1) = Panic 1
+(* W5 (C01) the begin marker as first line, or after a line shorter than the two bytes the signer strips: refused with
+   "malformed powershell signature" (an index-out-of-range panic before relic commit 4f70e5f) although the verifier finds a block *)
+Theorem ps_begin_first_refused :
+  ps_hashin 1 w_block1 = Err E_MALFORMED /\ ps_embed 1 w_block1 [1] = Err E_MALFORMED /\ ps_hashin 1 (10 :: w_block1) = Err E_MALFORMED
   /\ ps_extract 1 w_block1 = Ok (Some [1]).
 Proof. vm_compute. repeat split; reflexivity. Qed.
 
